@@ -26,7 +26,7 @@ ASSUMPTIONS = [
 DIRECT_CLAUSE = {"resend_before_dispatch": "fifo"}   # a queued command must not overtake the retransmissions of a resumed session
 
 FAMILIES = ["r-", "t-", "basic", "d8-", "d15-", "resub-sorted", "d17-", "d16-", "s5-", "a-start", "s1-", "s2-", "s3-", "s4-", "s6-", "s7", "b-", "b2-",
-            "b3-", "b4-", "many-", "large-", "rand-", "conc-"]
+            "b3-", "b4-", "many-", "large-", "q-", "k-", "rand-", "conc-"]
 
 
 def run(ck):
